@@ -214,7 +214,7 @@ def check(run):
                 "canonical JSON of the case.")
     run.assumptions = ["float rounding is not modelled: only dyadic fractions and magnitudes on "
                        "which IEEE arithmetic is exact are generated when a float is involved"]
-    cases = gen_random(run.rng, 1200 if run.tier == 'quick' else 6000)
+    cases = gen_random(run.rng, 1200 if run.tier == 'quick' else 24000)
     if run.tier == 'thorough':
         cases += list(gen_exhaustive(4))
         run.exhaustive = True
